@@ -574,25 +574,25 @@ pub fn marshal_rtcp_packets(packets: &[RtcpPacket]) -> RtpResult<Vec<u8>> {
         match packet {
             RtcpPacket::SenderReport(sr) => write_rtcp_packet(
                 &mut out,
-                sr.report_blocks.len() as u8,
+                rtcp_count(sr.report_blocks.len())?,
                 RTCP_SR,
                 build_sender_report_body(sr)?,
             ),
             RtcpPacket::ReceiverReport(rr) => write_rtcp_packet(
                 &mut out,
-                rr.report_blocks.len() as u8,
+                rtcp_count(rr.report_blocks.len())?,
                 RTCP_RR,
                 build_receiver_report_body(rr)?,
             ),
             RtcpPacket::SourceDescription(sdes) => write_rtcp_packet(
                 &mut out,
-                sdes.chunks.len() as u8,
+                rtcp_count(sdes.chunks.len())?,
                 RTCP_SDES,
-                build_sdes_body(sdes),
+                build_sdes_body(sdes)?,
             ),
             RtcpPacket::Goodbye(bye) => write_rtcp_packet(
                 &mut out,
-                bye.sources.len() as u8,
+                rtcp_count(bye.sources.len())?,
                 RTCP_BYE,
                 build_goodbye_body(bye),
             ),
@@ -620,6 +620,18 @@ pub fn marshal_rtcp_packets(packets: &[RtcpPacket]) -> RtpResult<Vec<u8>> {
         }
     }
     Ok(out)
+}
+
+/// The count of report blocks / chunks / sources travels in a 5-bit field
+/// (RFC 3550 6.4, 6.5, 6.6). A longer list cannot be expressed in one packet;
+/// masking the count would announce fewer entries than the body carries.
+fn rtcp_count(entries: usize) -> RtpResult<u8> {
+    if entries > 31 {
+        return Err(RtpError::InvalidRtcp(
+            "more than 31 report blocks / chunks / sources in one RTCP packet",
+        ));
+    }
+    Ok(entries as u8)
 }
 
 fn write_rtcp_packet(out: &mut Vec<u8>, fmt: u8, packet_type: u8, mut body: Vec<u8>) {
@@ -937,11 +949,15 @@ fn build_receiver_report_body(rr: &ReceiverReport) -> RtpResult<Vec<u8>> {
     Ok(body)
 }
 
-fn build_sdes_body(sdes: &SourceDescription) -> Vec<u8> {
+fn build_sdes_body(sdes: &SourceDescription) -> RtpResult<Vec<u8>> {
     let mut body = Vec::new();
     for chunk in &sdes.chunks {
         body.extend_from_slice(&chunk.ssrc.to_be_bytes());
         for item in &chunk.items {
+            // The item length is one octet (RFC 3550 6.5).
+            if item.text.len() > 255 {
+                return Err(RtpError::InvalidRtcp("SDES item text longer than 255 bytes"));
+            }
             body.push(item.ty);
             body.push(item.text.len() as u8);
             body.extend_from_slice(item.text.as_bytes());
@@ -951,7 +967,7 @@ fn build_sdes_body(sdes: &SourceDescription) -> Vec<u8> {
             body.push(0);
         }
     }
-    body
+    Ok(body)
 }
 
 fn build_goodbye_body(bye: &Goodbye) -> Vec<u8> {
